@@ -1,1 +1,32 @@
-def main : IO Unit := pure ()
+import Gama.Proto
+import Gama.Model.Statan
+open Gama Gama.Proto Gama.Statan
+
+def fuel : Nat := 100000000
+
+def step (s : Unit) (line : String) : Unit × String :=
+  let bad := (s, "bad-op")
+  match tokens line with
+  | ["normal", a] =>
+    match float? a with
+    | some a => (s, "ok " ++ showFloat (normal fuel a))
+    | none => bad
+  | ["student", a, n] =>
+    match float? a, n.toInt? with
+    | some a, some n => (s, "ok " ++ showFloat (student fuel a n))
+    | _, _ => bad
+  | ["chi", p, n] =>
+    match float? p, n.toInt? with
+    | some p, some n => (s, "ok " ++ showFloat (chiSquare fuel p n))
+    | _, _ => bad
+  | ["ks", x] =>
+    match float? x with
+    | some x => (s, "ok " ++ showFloat (ksProb x))
+    | none => bad
+  | ["nd", x] =>
+    match float? x with
+    | some x => let (D, f) := normalDistribution fuel x; (s, s!"ok {showFloat D} {showFloat f}")
+    | none => bad
+  | _ => bad
+
+def main : IO Unit := loop step ()
